@@ -14,6 +14,7 @@ func init() {
 	Register("C05", Family{
 		Gen: func(c *Ctx) {
 			genC05(c)
+			genPipeDynSweep(c, []string{"cancel"}, 300, 5000) // FlatMap family: fault-free + cancel at every position (pipedyn.go)
 			// asynchronous clause: run-ahead of Buffered / concurrent map (cases "A ...", concurrency family)
 			GenC05Async(c)
 			// tsquery clause: planning with Execute/Filter opens and pulls nothing (cases "Q ...", query family)
@@ -46,7 +47,7 @@ func init() {
 				// observation carries how many elements the loop made the source hand out
 				return ExecC04Ext(caseText)
 			}
-			return execPipe(caseText)
+			return execPipeOrDyn(caseText) // DYN cases: FlatMap family (pipedyn.go)
 		},
 	})
 }
